@@ -4,6 +4,7 @@ CONSTANTS
   Hosts = {0}
   Files = {"f"}
   FileOf <- MCFileOf
+  StripSlash <- MCStrip
   MCSizes = {1}
   MCIds = {1, 2}
   Payloads <- MCPayloads
